@@ -162,8 +162,16 @@ pub fn gen_model(r: &mut Rng, with_tags: bool) -> ModelData {
         }
         for t in tokens {
             let n_cat = r.below(4);
-            let tags: Vec<Vec<String>> = (0..n_cat)
-                .map(|c| (0..r.below(4)).map(|k| format!("t{c}{k}")).collect())
+            // sometimes force exactly 8 (or 9) candidate scores: the boundary between the fixed and the variable layout
+            let shape: Vec<usize> = match r.below(6) {
+                0 => vec![3, 3, 2],
+                1 => vec![8],
+                2 => vec![2, 1, 6, 0],
+                3 => vec![4, 5],
+                _ => (0..n_cat).map(|_| r.below(4)).collect(),
+            };
+            let tags: Vec<Vec<String>> = shape.iter().enumerate()
+                .map(|(c, &n)| (0..n).map(|k| format!("t{c}{k}")).collect())
                 .collect();
             let n_scores: usize = tags.iter().filter(|c| c.len() >= 2).map(|c| c.len()).sum();
             let ties = r.below(2) == 0; // small weights => exact ties between candidates
